@@ -403,6 +403,22 @@ fn vp_native_chunked_data_delivered_as_it_arrives_body() {
             } }
         }
     } }
+    // the whole body including its terminating chunk has arrived and the server keeps the connection open: the end is known, so
+    // every further read is answered at once with Ok(0) and never asks the transport for more
+    for &a in &[1usize, 5, 65536, 70000] { for seg in [4096usize, 1 << 20] { for rs in [1usize, 1000, 100000] {
+        if rs == 1 && a > 1000 { continue; }
+        let ca: Vec<u8> = (0..a).map(|i| (i % 253) as u8).collect();
+        let wire = encode(&[&ca[..]], 0);
+        let paused = Script { data: &wire, pos: 0, seg, calls: 0, fail_at: None, kind: io::ErrorKind::WouldBlock, sticky: false };
+        let mut r = ChunkedReader::new(BufReader::new(Pausing(paused)));
+        let mut got = Vec::new();
+        loop { let mut buf = vec![0u8; rs]; match r.read(&mut buf) { Ok(0) => break, Ok(n) => got.extend_from_slice(&buf[..n]), Err(e) => panic!("reading a complete chunked body of {} bytes failed: {}", a, e) } }
+        assert!(got == ca);
+        for again in 1..=3 { let mut buf = vec![0u8; rs]; match r.read(&mut buf) {
+            Ok(0) => {}
+            other => panic!("read #{} after the end of a complete chunked body ({} bytes, read size {}) did not return Ok(0) at once: {:?} (the transport has nothing more and would block)", again, a, rs, other.map_err(|e| e.kind())) } }
+        cases += 1;
+    } } }
     println!("VP-NATIVE chunked_data_delivered_as_it_arrives cases={}", cases);
 }
 /// a transport that answers WouldBlock instead of end-of-file once its data is used up
